@@ -15,6 +15,7 @@ package main
 import (
 	"context"
 	"encoding/binary"
+	"encoding/hex"
 	"fmt"
 	"math"
 	"os"
@@ -357,10 +358,11 @@ func (m *machine) walFiles() []string {
 }
 
 type proc struct {
-	m   *machine
-	v   *view
-	w   *wal.Writer
-	buf *ingest.ArrowBuffer
+	m        *machine
+	v        *view
+	w        *wal.Writer
+	buf      *ingest.ArrowBuffer
+	poisoned bool
 }
 
 func ridList(rs []int64) string {
@@ -417,7 +419,9 @@ func (p *proc) drainWAL(want int64) error {
 func (p *proc) kill() {
 	p.v.kill()
 	p.w.Close()
-	p.buf.Close()
+	if !p.poisoned {
+		p.buf.Close()
+	}
 }
 
 // shutdownFlush: FlushAll + Close (rows reach the disk).
@@ -492,13 +496,17 @@ func (p *proc) recoverStartup(entryOfRid map[int64]int, fileOfEntry map[int]int,
 		}
 	}
 	cnt := 0
-	after := func(rid interface{}) {
+	// the LTS event of an entry's replay is recorded when its callback starts: the callback re-buffers the
+	// entry's rows one by one and schema-change flushes of those rows happen inside it
+	before := func(rid interface{}) {
 		if n, ok := asInt64(rid); ok {
 			if e, ok := entryOfRid[n]; ok && !replayed[e] {
 				replayed[e] = true
 				m.emit(fmt.Sprintf("t.replay %d", e))
 			}
 		}
+	}
+	after := func(rid interface{}) {
 		cnt++
 		if crashAt > 0 && cnt == crashAt {
 			panic(crashSignal{})
@@ -510,6 +518,7 @@ func (p *proc) recoverStartup(entryOfRid map[int64]int, fileOfEntry map[int]int,
 		if len(records) > 0 {
 			rid = records[0]["rid"]
 		}
+		before(rid)
 		err := rowCb(ctx, records)
 		if err != nil {
 			m.emit("t.cberr " + err.Error())
@@ -523,6 +532,7 @@ func (p *proc) recoverStartup(entryOfRid map[int64]int, fileOfEntry map[int]int,
 		if c := columns["rid"]; len(c) > 0 {
 			rid = c[0]
 		}
+		before(rid)
 		err := colCb(ctx, database, measurement, columns)
 		if err != nil {
 			m.emit("t.cberr " + err.Error())
@@ -537,7 +547,8 @@ func (p *proc) recoverStartup(entryOfRid map[int64]int, fileOfEntry map[int]int,
 					crashed = true
 					return
 				}
-				panic(r)
+				err = fmt.Errorf("PANIC in startup recovery: %v", r)
+				p.poisoned = true // locks may be held by the unwound frames: never touch this buffer again
 			}
 		}()
 		rec := wal.NewRecovery(m.walDir, zerolog.Nop())
@@ -558,6 +569,9 @@ type scen struct {
 	torn       int  // extra bytes of the next entry left at the tail
 	crashAtCb  int  // first recovery dies after this many callbacks (0: no)
 	killAfter  bool // first recovery completes, process dies before any flush
+	freshDisk  bool // data-part comparison: the restarted process gets an empty object store, so that
+	// only what recovery restores is observed (rows flushed by schema-change flushes before the crash are
+	// the subject of the crash schedules, not of the data comparison)
 	walMax     int64
 }
 
@@ -567,11 +581,19 @@ type result struct {
 	persist int // entries persisted
 	nCb     int
 	err     error
+	stage   string
 	t0, t1  int64
 }
 
-func runScenario(c *vh.Ctx, us []*unit, sc scen) result {
-	var res result
+func runScenario(c *vh.Ctx, us []*unit, sc scen) (res result) {
+	stage := "live-write"
+	defer func() {
+		if r := recover(); r != nil {
+			// the buffer that panicked may hold locks; it is abandoned (goroutines leak until exit)
+			res.err = fmt.Errorf("PANIC in stage %s: %v", stage, r)
+			res.stage = stage
+		}
+	}()
 	dir, err := os.MkdirTemp("/dev/shm", "verif-c05-")
 	if err != nil {
 		dir, err = os.MkdirTemp("", "verif-c05-")
@@ -614,6 +636,7 @@ func runScenario(c *vh.Ctx, us []*unit, sc scen) result {
 		return res
 	}
 	if sc.live {
+		stage = "live-flush"
 		if err := p.flushClose(); err != nil {
 			res.err = err
 			return res
@@ -666,15 +689,20 @@ cutDone:
 		return res
 	}
 	m.emit("t.crash")
+	if sc.freshDisk {
+		m.d = newDisk()
+	}
 	p2, err := m.boot(sc.walMax)
 	if err != nil {
 		res.err = err
 		return res
 	}
 	m.emit("t.restart")
+	stage = "recovery"
 	crashed, err := p2.recoverStartup(entryOfRid, fileOfEntry, sc.crashAtCb)
 	if err != nil {
 		res.err = err
+		res.stage = stage
 		p2.kill()
 		return res
 	}
@@ -690,13 +718,16 @@ cutDone:
 		m.emit("t.restart")
 		if _, err := p3.recoverStartup(entryOfRid, fileOfEntry, 0); err != nil {
 			res.err = err
+			res.stage = stage
 			p3.kill()
 			return res
 		}
 		last = p3
 	}
+	stage = "flush-after-recovery"
 	if err := last.flushClose(); err != nil {
 		res.err = err
+		res.stage = stage
 		return res
 	}
 	res.rows, res.err = m.d.allRows()
@@ -782,7 +813,9 @@ func dataMonitors(c *vh.Ctx, us []*unit, live, rest map[int64][]srow) {
 		for _, rid := range u.rids {
 			l, r := live[rid], rest[rid]
 			if len(l) != 1 {
-				c.Fail("live-row-count:"+u.kind, fmt.Sprintf("crash-free run stored rid %d %d times", rid, len(l)), replay)
+				// not a C05 matter (C03 owns the crash-free flush pipeline): recorded, not failed
+				c.Tag("live-anomaly:row-count")
+				c.Extra["live-anomaly"] = fmt.Sprintf("crash-free run stored rid %d %d times; %s", rid, len(l), replay)
 				continue
 			}
 			entry := "row-entry"
@@ -794,6 +827,9 @@ func dataMonitors(c *vh.Ctx, us []*unit, live, rest map[int64][]srow) {
 				case u.intMeas:
 					c.Fail("row-lost:raw-entry:non-string-measurement:parseColumnarEntry",
 						fmt.Sprintf("acknowledged row rid=%d (measurement sent as an integer, stored live as %q) is not restored: readEntry rejects the raw entry (\"m\" is not a string) and the WAL file is deleted", rid, l[0].meas), replay)
+				case u.rowFmt && u.names["_measurement"]:
+					c.Fail("row-lost:row-entry:_measurement-column-not-a-string:createWALRecoveryCallback",
+						fmt.Sprintf("acknowledged row rid=%d is not restored: its value in the column named _measurement (NULL / non-string) overwrote the WAL record's measurement key and the row callback skips records without measurement", rid), replay)
 				default:
 					c.Fail("row-lost:"+entry+":other", fmt.Sprintf("acknowledged + persisted row rid=%d missing after restart", rid), replay)
 				}
@@ -853,6 +889,16 @@ func dataMonitors(c *vh.Ctx, us []*unit, live, rest map[int64][]srow) {
 						isRes = true
 					}
 				}
+				if ok && u.rowFmt && strings.HasPrefix(x.text, "s") && strings.HasPrefix(y, "s") {
+					if raw, err := hexDecode(x.text[1:]); err == nil {
+						if san, mod := ingest.SanitizeUTF8(string(raw)); mod && "s"+hexs(san) == y {
+							// msgpack-row TAG values are not sanitised by the live path (only fields are); replay
+							// sanitises every string. The live value is invalid UTF-8; observation, not a failure.
+							c.Tag("obs:invalid-utf8-tag-sanitised-only-on-replay")
+							continue
+						}
+					}
+				}
 				switch {
 				case !ok && isRes && u.rowFmt:
 					c.Fail("column-dropped:row-entry:reserved-name:createWALRecoveryCallback",
@@ -871,6 +917,13 @@ func dataMonitors(c *vh.Ctx, us []*unit, live, rest map[int64][]srow) {
 	}
 }
 
+func hexDecode(s string) ([]byte, error) {
+	if s == "-" {
+		return nil, nil
+	}
+	return hex.DecodeString(s)
+}
+
 func countsOf(rows []srow) map[int64]int {
 	cnt := map[int64]int{}
 	for _, r := range rows {
@@ -885,22 +938,37 @@ func countsOf(rows []srow) map[int64]int {
 // crash schedule whose WAL prefix contains them.
 func crashMonitors(c *vh.Ctx, us []*unit, sc scen, res result, plain map[int64][]srow) {
 	cnt := countsOf(res.rows)
-	var lostK, dupK string
+	// rows that reached the object store before a crash while their WAL file still existed
+	flushedBeforeCrash := map[int64]bool{}
+	{
+		flushed := map[int64]bool{}
+		for _, e := range res.ev {
+			if strings.HasPrefix(e, "t.flush ") {
+				for _, f := range strings.Split(e[8:], ",") {
+					if n, err := strconv.ParseInt(f, 10, 64); err == nil {
+						flushed[n] = true
+					}
+				}
+			}
+			if e == "t.crash" {
+				for k := range flushed {
+					flushedBeforeCrash[k] = true
+				}
+			}
+		}
+	}
+	var lostK string
 	switch {
 	case sc.killAfter:
 		lostK = "row-lost:crash-after-recovery-before-flush:RecoverWithOptions-removes-wal-before-flush"
-		dupK = "row-duplicated:crash-after-recovery-before-flush:other"
 	case sc.crashAtCb > 0:
-		lostK = "row-lost:crash-during-recovery:earlier-wal-file-already-removed"
-		dupK = "row-duplicated:crash-during-recovery:rows-flushed-before-crash-replayed-again"
+		lostK = "row-lost:crash-during-recovery:wal-file-removed-before-flush"
 	case sc.flushAfter >= 0:
 		lostK = "row-lost:crash-after-flush:other"
-		dupK = "row-duplicated:crash-after-flush:wal-entry-of-flushed-rows-replayed"
 	case sc.keep >= 0:
 		lostK = "row-lost:wal-prefix:other"
-		dupK = "row-duplicated:wal-prefix:other"
 	default:
-		return
+		lostK = "row-lost:crash-after-last-ack:other"
 	}
 	replay := fmt.Sprintf("history: %s ;; schedule: %s ;; events: %s", describe(us), sc.name, strings.Join(res.ev, " | "))
 	for i, u := range us {
@@ -916,11 +984,30 @@ func crashMonitors(c *vh.Ctx, us []*unit, sc scen, res result, plain map[int64][
 				c.Fail(lostK, fmt.Sprintf("row rid=%d (acknowledged, WAL entry %d persisted) is stored 0 times after schedule %q", rid, i, sc.name), replay)
 				c.Tag("mon:crash-lost")
 			case n > 1:
-				c.Fail(dupK, fmt.Sprintf("row rid=%d (acknowledged, WAL entry %d persisted) is stored %d times after schedule %q", rid, i, n, sc.name), replay)
+				dupK := "row-duplicated:other"
+				if flushedBeforeCrash[rid] {
+					dupK = "row-duplicated:flushed-before-crash:wal-entry-replayed-again"
+				}
+				c.Fail(dupK, fmt.Sprintf("row rid=%d (acknowledged, WAL entry %d persisted) is stored %d times after schedule %q: it was flushed to Parquet before a crash, its WAL file still existed, and startup recovery replayed it again", rid, i, n, sc.name), replay)
 				c.Tag("mon:crash-dup")
 			}
 		}
 	}
+}
+
+func recoveryFailKey(err error, us []*unit, stage string) string {
+	key := "restart-failed:" + stage
+	if strings.Contains(err.Error(), "PANIC") && strings.Contains(err.Error(), "interface conversion") {
+		key = "recovery-panic:row-entry:mergeBatches-type-assert:other"
+		for _, u := range us {
+			for n := range u.names {
+				if u.rowFmt && strings.HasPrefix(n, "_") && n != "_database" && n != "_measurement" {
+					key = "recovery-panic:row-entry:null-in-underscore-column:mergeBatches-type-assert"
+				}
+			}
+		}
+	}
+	return key
 }
 
 func emitTrace(c *vh.Ctx, sc scen, res result) {
@@ -933,7 +1020,7 @@ func emitTrace(c *vh.Ctx, sc scen, res result) {
 
 func main() {
 	c := vh.Start()
-	r := vh.NewRand(c.Seed)
+	r := vh.NewRand(c.Seed*0x2545F4914F6CDD1D + 0x9E3779B9) // vh's streams of consecutive seeds are shifts of each other
 	nHist := 40
 	if c.Thorough() {
 		nHist = 400
@@ -955,7 +1042,8 @@ func main() {
 }
 
 func runHistory(c *vh.Ctx, r *vh.Rand, reqs []*areq, h int) {
-	fe := newFrontend(true)
+	fe := newFrontend(r.Intn(100) < 80)
+	tDecode := time.Now().UnixMicro()
 	var us []*unit
 	for _, q := range reqs {
 		u, err := fe.unitsOf(q)
@@ -978,15 +1066,22 @@ func runHistory(c *vh.Ctx, r *vh.Rand, reqs []*areq, h int) {
 		c.Extra[fmt.Sprintf("live-error-%d", h)] = liveRes.err.Error() + " :: " + describe(us)
 		return
 	}
-	plain := runScenario(c, us, scen{name: "plain", flushAfter: -1, keep: -1, walMax: walMax})
+	plain := runScenario(c, us, scen{name: "plain", flushAfter: -1, keep: -1, walMax: walMax, freshDisk: true})
+	if plain.err != nil && (plain.stage == "live-write" || plain.stage == "") {
+		c.Tag("live-error")
+		return
+	}
 	if plain.err != nil {
-		c.Fail("restart-failed:plain", plain.err.Error(), describe(us))
+		key := recoveryFailKey(plain.err, us, "plain")
+		c.Fail(key, "startup recovery of a WAL written by acknowledged requests does not complete: "+plain.err.Error()+
+			" (a NULL cell of a column whose name starts with '_' is replayed as a one-row all-NULL string column; getColumnSignature skips '_' columns, so the next row's typed column is merged into the same buffer)", describe(us))
+		c.Tag("mon:recovery-panic")
 		return
 	}
 	lv, rs := byRid(liveRes.rows), byRid(plain.rows)
 	nontrivial := false
 	for _, u := range us {
-		out := "live=" + rowsText(u, lv, liveRes.t0, liveRes.t1) + " wal="
+		out := "live=" + rowsText(u, lv, tDecode, liveRes.t1) + " wal="
 		if u.rowFmt {
 			out += "rows"
 		} else {
@@ -1007,10 +1102,10 @@ func runHistory(c *vh.Ctx, r *vh.Rand, reqs []*areq, h int) {
 		}
 	}
 	dataMonitors(c, us, lv, rs)
-	emitTrace(c, scen{name: "plain"}, plain)
 
 	// crash schedules
 	var scs []scen
+	scs = append(scs, scen{name: "kill-after-last-ack", flushAfter: -1, keep: -1, walMax: walMax})
 	scs = append(scs, scen{name: "kill-after-recovery-before-flush", flushAfter: -1, keep: -1, killAfter: true, walMax: walMax})
 	nCb := len(us)
 	pick := func(n int) []int {
@@ -1035,7 +1130,11 @@ func runHistory(c *vh.Ctx, r *vh.Rand, reqs []*areq, h int) {
 	for _, sc := range scs {
 		res := runScenario(c, us, sc)
 		if res.err != nil {
-			c.Fail("restart-failed:"+strings.SplitN(sc.name, "-", 2)[0], res.err.Error(), describe(us)+" ;; "+sc.name)
+			if res.stage == "live-write" || res.stage == "live-flush" {
+				c.Tag("live-error")
+			} else {
+				c.Fail(recoveryFailKey(res.err, us, res.stage), res.err.Error(), describe(us)+" ;; "+sc.name)
+			}
 			continue
 		}
 		c.Tag("schedule:" + strings.TrimRight(sc.name, "0123456789-"))
